@@ -21,7 +21,7 @@ PLAN = dict(
         quick=[det("rel", H, "cs-rel", 16, 320, 4, tso=True, time_cap=22),
                det("dbg", H, "cs-dbg", 16, 200, 4, tso=True, time_cap=16),
                cmd("seq", RC, "plain", 2, ["15000"], link_tbb=False, ldflags=["-lrapidcheck"]),
-               tsan("C05", 4, 80)],
+               tsan("C05", 8, 240)],
         thorough=[det("rel", H, "cs-rel", 16, 6000, 5, tso=True, time_cap=330),
                   det("dbg", H, "cs-dbg", 16, 3000, 5, tso=True, time_cap=200),
                   cmd("seq", RC, "plain", 8, ["200000"], link_tbb=False, ldflags=["-lrapidcheck"]),
